@@ -78,6 +78,9 @@ def gen_case(rng, tier, g):
                         profile='containers' if rec.profile == 'containers'
                         else None)
               for _ in range(max(rec.nsrc, 1))]
+    if name == 'fromdicts-gen' and rng.random() < 0.35:
+        for i in range(1, min(len(tables[0]), rng.randint(2, 4))):
+            tables[0][i] = []
     nviews = 2 if (rec.multi or name == 'sort-of-sort') else 1
     nrows = len(tables[0]) - 1
     steps, shape = gen_schedule(rng, nviews=nviews,
